@@ -76,6 +76,24 @@ def seed_variants(prop: str) -> list[tuple]:
     return out
 
 
+def refactor_variants(prop: str) -> list[tuple]:
+    """Stored behaviour-preserving refactorings (/verif/refactors/<id>/patch.diff, written by independent sub-agents for
+    this property's anchor files; the pinned suite is unchanged under each): the check must stay silent on them."""
+    out = []
+    root = os.path.join(VERIF, "refactors")
+    for d in sorted(os.listdir(root)) if os.path.isdir(root) else []:
+        mp, pp = os.path.join(root, d, "meta.json"), os.path.join(root, d, "patch.diff")
+        if not (os.path.exists(mp) and os.path.exists(pp)):
+            continue
+        try:
+            meta = json.load(open(mp))
+        except ValueError:
+            continue
+        if prop in (meta.get("props") or []):
+            out.append((f"refactor-{d}", prop, "-", "@silent", pp))
+    return out
+
+
 def _apply_patch(root: str, var) -> str | None:
     p = subprocess.run(["patch", "-p1", "-s", "-f", "-d", root, "-i", var[4]], capture_output=True, text=True)
     if p.returncode != 0:
@@ -89,7 +107,7 @@ def _run_one(var, scratch_root: str) -> dict:
     t0 = time.time()
     try:
         _copy_tree(d)
-        err = _apply_patch(d, var) if var[3] == "@patch" else _apply(d, var)
+        err = _apply_patch(d, var) if var[3] in ("@patch", "@silent") else _apply(d, var)
         if err:
             return dict(id=vid, prop=prop, rule=rule, status="skipped", detail=err)
         ev = os.path.join(d, "_evidence")
@@ -101,6 +119,11 @@ def _run_one(var, scratch_root: str) -> dict:
         p = subprocess.run([sys.executable, "-m", "tlsa.main", prop, "--tier", "quick", "--root", d, "--evidence-dir", ev, "--known", os.path.join(VERIF, "known_findings.json")],
                            cwd=VERIF, env=env, capture_output=True, text=True, timeout=900)
         out = p.stdout
+        if var[3] == "@silent":
+            if p.returncode == 0:
+                return dict(id=vid, prop=prop, rule=rule, status="silent", detail="no alarm on the refactored tree", wall=round(time.time() - t0, 1))
+            lines = [ln.strip() for ln in out.splitlines() if (ln.startswith("  ") and " @ " in ln) or "ANALYSIS-ERROR" in ln][:2]
+            return dict(id=vid, prop=prop, rule=rule, status="FALSE-ALARM", detail=f"rc={p.returncode} " + "; ".join(lines)[:260], wall=round(time.time() - t0, 1))
         hit = [ln for ln in out.splitlines() if ln.strip().startswith(rule + " ")]
         viol = "VIOLATION property=" in out
         if p.returncode == 1 and viol and hit:
@@ -124,13 +147,13 @@ def run_variants(variants, jobs: int = 16) -> list[dict]:
 
 
 def audit_property(prop: str) -> int:
-    vs = [v for v in V if v[1] == prop] + seed_variants(prop)
+    vs = [v for v in V if v[1] == prop] + seed_variants(prop) + refactor_variants(prop)
     if not vs:
         print(f"[{prop}] audit: no variants defined")
         return 0
     t0 = time.time()
     res = run_variants(vs)
-    det = [r for r in res if r["status"] in ("detected", "detected-other-rule")]
+    det = [r for r in res if r["status"] in ("detected", "detected-other-rule", "silent")]
     skipped = [r for r in res if r["status"] == "skipped"]
     missed = [r for r in res if r not in det and r not in skipped]
     for r in res:
@@ -139,16 +162,16 @@ def audit_property(prop: str) -> int:
     evp = os.path.join(VERIF, "evidence", f"{prop}.json")
     try:
         ev = json.load(open(evp))
-        ev["coverage"]["audit"] = dict(variants=len(vs), detected=len(det), skipped=len(skipped), missed=[r["id"] for r in missed], wall_s=round(time.time() - t0, 1), results=res,
+        ev["coverage"]["audit"] = dict(variants=len(vs), detected=len([r for r in det if r["status"] != "silent"]), silent_on_refactorings=len([r for r in det if r["status"] == "silent"]), skipped=len(skipped), missed=[r["id"] for r in missed], wall_s=round(time.time() - t0, 1), results=res,
                                        rule="each variant is one textual edit (or one stored seeded patch, id seed-*) applied to a scratch copy of /repo that breaks one rule instance; the check must exit 1 naming that rule")
         ev["wall_s"] = round(ev.get("wall_s", 0) + time.time() - t0, 3)
         json.dump(ev, open(evp, "w"), indent=1, default=str)
     except Exception as e:  # noqa: BLE001
         print(f"ANALYSIS-ERROR property={prop} audit could not update evidence: {e!r}")
         return 2
-    print(f"[{prop}] audit: {len(det)}/{len(vs)} variants detected, {len(skipped)} skipped, {len(missed)} missed ({time.time() - t0:.0f}s)")
+    print(f"[{prop}] audit: {len(det)}/{len(vs)} variants as expected (breaking edits detected, refactorings silent), {len(skipped)} skipped, {len(missed)} wrong ({time.time() - t0:.0f}s)")
     if missed:
-        print(f"ANALYSIS-ERROR property={prop} audit: rules unarmed for variants {[r['id'] for r in missed]} (this says nothing about /repo)")
+        print(f"ANALYSIS-ERROR property={prop} audit: rules unarmed (or alarming on a behaviour-preserving refactoring) for variants {[r['id'] for r in missed]} (this says nothing about /repo)")
         return 2
     if len(skipped) > len(vs) // 2:
         print(f"ANALYSIS-ERROR property={prop} audit: {len(skipped)} of {len(vs)} variants no longer apply to the tree")
